@@ -5,6 +5,7 @@ lean/E3nnVerif/Generated/RTP/*.lean (data, rewritten only when changed) and lean
 from __future__ import annotations
 
 import math
+import os
 import random
 import re
 from fractions import Fraction
@@ -98,11 +99,11 @@ def family(tier, seed):
         C("C3_0e1o", "ijk=jki", dict(i="0e+1o"), tier="thorough"),
         C("N3_1o", "ijk", dict(i="1o", j="1o", k="1o"), tier="thorough"),
         C("N3_mixed", "ijk", dict(i="1o", j="1e", k="0e+1o"), tier="thorough"),
-        C("X3_1o", "ijk=jik=-ikj", dict(i="1o"), tier="thorough"),         # contradictory signs: the zero space
+        C("X3_1o", "ijk=jik=-ikj", dict(i="1o"), tier="quick", exact=False, prog=False),   # contradictory signs: the zero space
         C("S4_1o", "ijkl=jikl=klij", dict(i="1o"), tier="thorough"),
         C("R4_1o", "ijkl=-jikl=-ijlk=klij", dict(i="1o"), tier="thorough"),
         C("F4_1e", "ijkl=jikl=ikjl=ijlk", dict(i="1e"), tier="thorough"),
-        C("A4_1o", "ijkl=-jikl=-ikjl=-ijlk", dict(i="1o"), tier="thorough"),
+        C("A4_1o", "ijkl=-jikl=-ikjl=-ijlk", dict(i="1o"), tier="thorough", exact=False, prog=False),   # Λ⁴(ℝ³) = 0
         C("A4_0e1o", "ijkl=-jikl=-ikjl=-ijlk", dict(i="0e+1o"), tier="thorough"),
         C("E4_1o", "ijkl=jikl=ijlk", dict(i="1o", k="1o"), tier="thorough"),
         C("P4_1o", "ijkl=klij", dict(i="1o", j="1o"), tier="thorough"),
@@ -150,6 +151,9 @@ def family(tier, seed):
         fam.append(C(f"V{t}", f, irreps, tier="quick" if t < 2 else "thorough"))
     if tier == "quick":
         fam = [c for c in fam if c.tier == "quick"]
+    only = os.environ.get("C10_FAMILY")      # debugging / mutation tests: restrict the family to the named configurations
+    if only:
+        fam = [c for c in fam if c.name in only.split(",")]
     return fam
 
 
@@ -436,3 +440,17 @@ def failed_certs(build_output):
     for m in re.finditer(r"E3nnVerif/Cert/RTP/(\w+)_([ABP])\.lean:(\d+):", build_output):
         bad.setdefault((m.group(1), m.group(2)), set()).add(int(m.group(3)))
     return bad
+
+
+def failed_theorems(name, part, lines):
+    """names of the theorems of Cert/RTP/<name>_<part>.lean declared at the given (error) line numbers"""
+    from common import LEAN
+    path = LEAN / "E3nnVerif" / "Cert" / "RTP" / f"{name}_{part}.lean"
+    out = []
+    if not path.exists():
+        return out
+    for ln, txt in enumerate(path.read_text().split("\n"), 1):
+        m = re.match(r"theorem (\w+) ", txt)
+        if m and ln in lines:
+            out.append(m.group(1))
+    return out
